@@ -191,14 +191,53 @@ func must(err error) {
 
 // ---- Gallina term rendering ----
 
+// Z renders an int64 as a Gallina Z term. Coq elaborates long decimal literals slowly
+// (several ms each), so values beyond 32 bits are written with the binary constructors.
 func Z(v int64) string {
-	if v < 0 {
-		return fmt.Sprintf("(%d)%%Z", v)
+	if v > -(1<<31) && v < (1<<31) {
+		if v < 0 {
+			return fmt.Sprintf("(%d)%%Z", v)
+		}
+		return fmt.Sprintf("%d%%Z", v)
 	}
-	return fmt.Sprintf("%d%%Z", v)
+	if v < 0 {
+		return "(Zneg " + pos(uint64(-(v+1))+1) + ")"
+	}
+	return "(Zpos " + pos(uint64(v)) + ")"
 }
-func N(v uint64) string { return fmt.Sprintf("%d%%N", v) }
-func Nat(v int) string  { return fmt.Sprintf("%d%%nat", v) }
+
+// N renders a uint64 as a Gallina N term (binary constructors beyond 32 bits).
+func N(v uint64) string {
+	if v < (1 << 32) {
+		return fmt.Sprintf("%d%%N", v)
+	}
+	return "(Npos " + pos(v) + ")"
+}
+
+// pos renders a positive number with xH/xO/xI.
+func pos(v uint64) string {
+	if v == 0 {
+		panic("pos(0)")
+	}
+	var b strings.Builder
+	n := 0
+	top := 63
+	for v>>uint(top)&1 == 0 {
+		top--
+	}
+	for i := 0; i < top; i++ {
+		if v>>uint(i)&1 == 1 {
+			b.WriteString("(xI ")
+		} else {
+			b.WriteString("(xO ")
+		}
+		n++
+	}
+	b.WriteString("xH")
+	b.WriteString(strings.Repeat(")", n))
+	return b.String()
+}
+func Nat(v int) string { return fmt.Sprintf("%d%%nat", v) }
 func Bool(b bool) string {
 	if b {
 		return "true"
